@@ -319,11 +319,13 @@ def main(tier, seed):
         shutil.rmtree(os.path.join(wroot, "m%d" % k), ignore_errors=True)
     # ---- a schema that needs several passes (a subtype of / an attribute typed by an object of a schema that is processed later):
     # exp2cxx writes Sdai<SCHEMA>_1/_2 files, the scanner lists the unsuffixed ones (open finding)
-    cpath = os.path.join(VERIF, "corpus", "C17", "two_schemas_cross_use.exp")
-    if os.path.exists(cpath):
+    import glob as _glob
+    for cpath in sorted(_glob.glob(os.path.join(VERIF, "corpus", "C17", "*.exp"))):
+        cname = os.path.basename(cpath)
         text = open(cpath).read()
-        scanned, gfiles, rc_s, rc_g, fexp, errtxt = run_pair("cross", text, fname="two_schemas_cross_use.exp")
+        scanned, gfiles, rc_s, rc_g, fexp, errtxt = run_pair("corpus_" + cname[:-4], text, fname=cname)
         evals += 1
+        hist["corpus_files"] = hist.get("corpus_files", 0) + 1
         listed = set()
         for sn, (lists, short, cnt, dname, tfile) in scanned.items():
             for key, variants in lists.items():
@@ -331,12 +333,13 @@ def main(tier, seed):
                     listed.update(v)
         aux = {f for f in gfiles if re.match(r"Sdai\w+_unity_(entities|types)\.h$", f)}
         if rc_s != 0 or rc_g != 0:
-            res.violation("corpus/C17/two_schemas_cross_use.exp: scanner status %d, exp2cxx status %d" % (rc_s, rc_g), {"input_file": cpath})
+            oracle_fail += 1
+            res.violation("corpus/C17/%s: scanner status %d, exp2cxx status %d" % (cname, rc_s, rc_g), {"input_file": cpath})
         elif (listed - gfiles) or (gfiles - listed - aux):
             oracle_fail += 1
-            res.violation("two schemas that use each other's objects: listed but not created %s, created but not listed %s" % (
-                sorted(listed - gfiles)[:4], sorted(gfiles - listed - aux)[:4]), {"input_file": cpath},
-                signature="multi_pass_schema_suffixed_files")
+            res.violation("corpus/C17/%s (schemas that use each other's objects): listed but not created %s, created but not listed %s" % (
+                cname, sorted(listed - gfiles)[:4], sorted(gfiles - listed - aux)[:4]), {"input_file": cpath},
+                signature="multi_pass_schema_suffixed_files" if cname == "two_schemas_cross_use.exp" else None)
     shutil.rmtree(wroot, ignore_errors=True)
     if not pr["ok"]:
         res.violation("Properties_C17.v no longer checks (%s)" % ", ".join(pr["failed"] or ["see log"]),
